@@ -911,6 +911,10 @@ func (x *Exec) RunScenario(sc *Scenario) {
 	x.viaSlice = false
 	for i := range sc.Steps {
 		x.step = i + 1
+		if sc.Steps[i].Op == "HashGroup" {
+			x.hashGroup(sc, &sc.Steps[i])
+			continue
+		}
 		if sc.Steps[i].Op == "FloatJSONBatch" {
 			x.floatJSONBatch(sc, &sc.Steps[i])
 			continue
